@@ -23,6 +23,8 @@ WHAT = {
  'integer-keyed mappings': ("C04", "list-layout model loader: {0: 1} -> bare KeyError (plain ExceptionGroup under ALL), {0: 1, 1: 2} accepted as a list even in strict mode (also C07) (C03 sweep / load_kinds_as_list* rk=2)"),
  'unexpected field-loader errors': ("C04", "model loader, DebugTrail.ALL: ValueError from a field loader wrapped into AggregateLoadError (a LoadError with a non-LoadError leaf) (model_fields_plain v2=-2)"),
  'ExcludedTypeLoadError stored': ("C05", "ExcludedTypeLoadError.input_value held the excluded type and excluded_type the datum: the offending value of a str/Mapping given to an iterable/tuple/list-layout loader was not reported (C05 model_kinds_as_list_forbid rk=3; l2 root errors)"),
+ 'by origin only': ("C14", "List[int] -> Optional[List[str]] accepted and passed as is (UnionSubcaseCoercerProvider compared origins only) (refusal_table; sound_List_int di=5)"),
+ 'Optional of its first member': ("C14", "Union[int, str, None] -> Optional[int] accepted: a str lands in an Optional[int] field (sound_U_int_str_none sel=2)"),
 }
 WHAT.update(json.load(open('/verif/tools/fixed_extra.json')) if __import__('os').path.exists('/verif/tools/fixed_extra.json') else {})
 log = subprocess.run(["git", "-C", "/repo", "log", "--format=%h %s"], capture_output=True, text=True).stdout.splitlines()
